@@ -210,3 +210,96 @@ def corpus_job(case):
         return res
     finally:
         common.rmtree(scratch)
+
+
+# ------------------------------------------------------------------ upstream Python unit tests (numpy-free ones)
+
+PYTHON_TARGETS = ["classes", "tutorial", "types", "strings", "clibrary", "enum-c", "namespace", "ccomplex"]
+# upstream assertions that depend on the interpreter version, not on Shroud
+PY_TEST_QUIRKS = {("classes", "test_class1_create1"): "expects CPython < 3.10 wording 'an integer is required' of the TypeError PyArg_Parse raises"}
+
+
+def python_corpus_job(case):
+    """Build the freshly generated Python extension of an upstream configuration with ASan+UBSan, link the
+    upstream library sources, run regression/run/<name>/python/test.py under LD_PRELOAD=libasan."""
+    import sysconfig
+    name = case["name"]
+    cfg = {c["name"]: c for c in corpus.configs()}[name]
+    scratch = common.mkscratch("bfpy-")
+    res = {"name": name, "builds": [], "violations": [], "stats": {}}
+    try:
+        top, rr = make_top(name, cfg, scratch)
+        if top is None:
+            e = rr.get("exc") or {}
+            res["violations"].append({"mech": "shroud-fails:%s" % e.get("type"), "detail": str(e.get("msg"))[:500]})
+            return res
+        gen_dir = os.path.join(top, "regression", "reference", name)
+        run_dir = os.path.join(top, "regression", "run", name)
+        test = os.path.join(run_dir, "python", "test.py")
+        pys = sorted(f for f in os.listdir(gen_dir) if f.startswith("py") and f.endswith((".c", ".cpp")))
+        if not pys or not os.path.exists(test):
+            res["unreachable"] = "no python wrapper or no upstream test"
+            return res
+        modsrc = "".join(open(os.path.join(gen_dir, f)).read() for f in pys)
+        m = re.search(r"PyInit_(\w+)", modsrc)
+        if not m:
+            res["unreachable"] = "module name not found"
+            return res
+        mod = m.group(1)
+        libsrc = sorted(f for f in os.listdir(run_dir) if f.endswith((".c", ".cpp")) and not f.startswith(("main", "test")))
+        cxx = any(f.endswith(".cpp") for f in pys + libsrc)
+        bdir = os.path.join(scratch, "build-python")
+        os.makedirs(bdir)
+        objs = []
+        for d_, f in [(gen_dir, f) for f in pys] + [(run_dir, f) for f in libsrc]:
+            cc = ["g++", "-std=c++11"] if f.endswith(".cpp") else ["gcc", "-std=c99"]
+            o = os.path.join(bdir, f + ".o")
+            p = subprocess.run(cc + ["-c", "-fPIC", "-g", "-O0", "-w", "-I", gen_dir, "-I", run_dir, "-I", sysconfig.get_paths()["include"]] + SAN.split() +
+                               [os.path.join(d_, f), "-o", o], capture_output=True, text=True, timeout=600)
+            if p.returncode != 0:
+                if re.search(r"numpy/arrayobject\.h", p.stderr):
+                    res["unreachable"] = "needs numpy"
+                    return res
+                msg = re.sub(r"\d+", "N", (re.search(r"error:?\s*([^\n]*)", p.stderr) or [None, "?"])[1])[:60]
+                res["violations"].append({"mech": "python-build-fails:%s:%s" % ("generated" if d_ == gen_dir else "other", msg),
+                                          "detail": "%s %s\n%s" % (name, f, p.stderr[-2500:])})
+                return res
+            objs.append(o)
+        p = subprocess.run((["g++"] if cxx else ["gcc"]) + ["-shared"] + SAN.split() + objs + ["-o", os.path.join(bdir, mod + ".so")],
+                           capture_output=True, text=True, timeout=600)
+        if p.returncode != 0:
+            res["violations"].append({"mech": "python-link-fails", "detail": "%s\n%s" % (name, p.stderr[-2500:])})
+            return res
+        env = dict(os.environ)
+        env.update({"ASAN_OPTIONS": "detect_leaks=0:halt_on_error=1:abort_on_error=0", "UBSAN_OPTIONS": "print_stacktrace=1:halt_on_error=1",
+                    "LD_PRELOAD": subprocess.check_output(["gcc", "-print-file-name=libasan.so"], text=True).strip(),
+                    "PYTHONPATH": bdir, "PYTHONDONTWRITEBYTECODE": "1"})
+        try:
+            q = subprocess.run([common.PY, test], cwd=bdir, capture_output=True, text=True, timeout=600, env=env, errors="replace")
+        except subprocess.TimeoutExpired:
+            res["watchdog"] = True
+            return res
+        out = q.stdout + "\n" + q.stderr
+        m = re.search(r"Ran (\d+) tests?", out)
+        res["stats"]["python_tests_run"] = int(m.group(1)) if m else 0
+        res["builds"].append({"target": "python", "run_rc": q.returncode})
+        reps = sanitizer_reports(q.stderr)
+        gen_files = set(os.listdir(gen_dir))
+        quirks = load_quirks()
+        for rp in reps:
+            if rp["kind"].startswith("lsan"):
+                continue
+            gen, lib = classify_frames(rp["frames"], gen_files)
+            if is_quirk(quirks, name, rp["kind"], gen or "-", lib or "-"):
+                continue
+            res["violations"].append({"mech": "sanitizer:%s:%s:%s" % (rp["kind"], gen or "-", lib or "-"), "detail": "%s python\n%s" % (name, rp["text"])})
+        if not reps and (q.returncode != 0 or not re.search(r"^OK", out, re.M)):
+            fails = sorted(set(re.findall(r"^(?:FAIL|ERROR): (\w+)", out, re.M)))[:6]
+            if fails and all((name, t) in PY_TEST_QUIRKS for t in fails):
+                res.setdefault("quirks_seen", []).extend("%s.%s: %s" % (name, t, PY_TEST_QUIRKS[(name, t)]) for t in fails)
+                return res
+            res["violations"].append({"mech": "upstream-python-test-fails:%s" % (",".join(fails) or "rc%d" % q.returncode),
+                                      "detail": "%s\n%s" % (name, out[-3000:])})
+        return res
+    finally:
+        common.rmtree(scratch)
